@@ -31,7 +31,7 @@ func isWriteSig(sig *types.Signature) bool {
 	if !ok || !types.Identical(sl.Elem(), types.Typ[types.Byte]) {
 		return false
 	}
-	return types.Identical(sig.Results().At(0).Type(), types.Typ[types.Int]) && sig.Results().At(1).Type().String() == "error"
+	return types.Identical(sig.Results().At(0).Type(), types.Typ[types.Int]) && TStr(sig.Results().At(1).Type()) == "error"
 }
 
 // writeParam returns the []byte parameter of a Write method.
@@ -387,7 +387,7 @@ func itoa(i int) string { return strconv.Itoa(i) }
 // the error the function returns, on every iteration.
 func c13ErrFold(c *Ctx, fn *ssa.Function, loopCall, errSrc *ssa.Call, rule, name string) {
 	res := fn.Signature.Results()
-	if res.Len() > 0 && res.At(res.Len()-1).Type().String() == "error" {
+	if res.Len() > 0 && TStr(res.At(res.Len()-1).Type()) == "error" {
 		c13ErrFoldPaths(c, fn, errSrc, rule, name)
 		return
 	}
@@ -881,8 +881,8 @@ func c13WrapOrKeep(c *Ctx, fn *ssa.Function, wrapper *types.Named, field, assert
 			if !ok || resolve(st, ta.X) != ssa.Value(arg) {
 				return ""
 			}
-			if ta.AssertedType.String() != asserted {
-				return "other-type-test(" + ta.AssertedType.String() + ")"
+			if TStr(ta.AssertedType) != asserted {
+				return "other-type-test(" + TStr(ta.AssertedType) + ")"
 			}
 			if pol {
 				return "is=T"
